@@ -17,6 +17,7 @@ import (
 // expLogger is the in-latch observer of the expiry family: every committed insert, TTL write and
 // row deletion with a timestamp taken inside Append (milliseconds since the start of the scenario).
 type expLogger struct {
+	base   int // inserts below this offset are the value-less rows of the prologue: not logged (a removal of one is)
 	w      *World
 	name   string
 	start  time.Time
@@ -36,6 +37,9 @@ func (l *expLogger) Append(cm commit.Commit) error {
 				for r.Next() {
 					switch r.Type {
 					case commit.Insert:
+						if int(r.Index()) < l.base {
+							continue
+						}
 						l.w.T.Log(Ev{"e": "xins", "c": l.name, "o": int(r.Index()), "at": now})
 					case commit.Delete:
 						l.w.T.Log(Ev{"e": "xdel", "c": l.name, "o": int(r.Index()), "at": now})
@@ -72,12 +76,13 @@ type ExpProfile struct {
 	Rows     int
 	Bait     bool // reproduce: an extension committed between the vacuum's scan and its commit
 	RunMs    int
+	Base     int // value-less prologue rows below the rows of the scenario (0, or almost a block)
 }
 
 func ExpProfileFor(name string, seed int64) ExpProfile {
 	r := rand.New(rand.NewSource(seed ^ 0xe8))
 	return ExpProfile{Name: name, Interval: []time.Duration{time.Millisecond, 5 * time.Millisecond, 50 * time.Millisecond}[r.Intn(3)],
-		Rows: 8 + r.Intn(8), Bait: r.Intn(2) == 0, RunMs: 4200}
+		Rows: 8 + r.Intn(8), Bait: r.Intn(2) == 0, RunMs: 4200, Base: []int{0, 16384 - 3 - r.Intn(6)}[r.Intn(2)]}
 }
 
 func fromVacuum() bool {
@@ -100,13 +105,24 @@ func RunExpire(seed int64, p ExpProfile) (out []Ev) {
 	start := time.Now()
 	grace := 10*int(p.Interval/time.Millisecond) + 3000
 	mk := func(name string) (*column.Collection, *expLogger) {
-		lg := &expLogger{w: w, name: name, start: start}
+		lg := &expLogger{w: w, name: name, start: start, base: p.Base}
 		c := column.NewCollection(column.Options{Capacity: 64, Writer: lg, Vacuum: p.Interval})
 		c.CreateColumn("a", column.ForInt())
 		return c, lg
 	}
 	P, plog := mk("P")
 	defer P.Close()
+	if p.Base > 0 {
+		// value-less rows without time-to-live up to a few offsets before the end of the first block: the rows of the scenario
+		// straddle the block boundary (the cleanup works block by block). They are never removed - nobody logs their insertion,
+		// a removal of one would be logged and nothing explains it
+		P.Query(func(txn *column.Txn) error {
+			for i := 0; i < p.Base; i++ {
+				txn.Insert(func(column.Row) error { return nil })
+			}
+			return nil
+		})
+	}
 	ms := func() int { return int(time.Since(start) / time.Millisecond) }
 	// a time-to-live was set by a call that began at t0 and has just returned: the deadline it buffered lies between
 	// (t0 + ttl) and (now + ttl), whatever the transaction did before (logged from inside the callback)
@@ -118,7 +134,11 @@ func RunExpire(seed int64, p ExpProfile) (out []Ev) {
 	poll := func(name string, c *column.Collection) {
 		rows := []int{}
 		c.Query(func(txn *column.Txn) error {
-			txn.Range(func(idx uint32) { rows = append(rows, int(idx)) })
+			txn.Range(func(idx uint32) {
+				if int(idx) >= p.Base {
+					rows = append(rows, int(idx))
+				}
+			})
 			return nil
 		})
 		w.T.Log(Ev{"e": "xpoll", "c": name, "at": ms(), "grace": grace, "rows": rows})
